@@ -26,7 +26,7 @@ from gvsim.sim import Raised, Sim, sut
 
 PROP = 'C02'
 TIERS = {'quick': {'runs': 1200, 'wall': 120, 'chunk': 20}, 'thorough': {'runs': 30000, 'wall': 1500, 'chunk': 25}}
-REACH = ['reseed_gv', 'np_draw', 'py_seed', 'debug_flip', 'cache_pressure', 'restart_fresh_interpreter', 'twin_pair', 'reseeded_vs_fresh', 'stochastic_draw', 'numeric_representation_in_history']  # probes / faults that must fire in every batch (reach gaps are reported in the evidence)
+REACH = ['reseed_gv', 'np_draw', 'py_seed', 'debug_flip', 'cache_pressure', 'restart_fresh_interpreter', 'twin_pair', 'reseeded_vs_fresh', 'stochastic_draw', 'numeric_representation_in_history', 'functional_rollout_on_foreign_states']  # probes / faults that must fire in every batch (reach gaps are reported in the evidence)
 RULE = ('interleave runs: 2-4 live environments (all shipped configurations, coin_env, random compositions containing '
         'every stochastic component and every random reset; twins with equal configuration, seed and actions) whose '
         'operations a seeded scheduler interleaves with an adversary that reseeds / draws from / clears every '
@@ -70,8 +70,11 @@ def client_ops(r, n):
             ops.append(['step', r.randrange(64)])
         elif m < 0.85:
             ops.append(['read_obs', r.choice([1, 1, 2])])
-        elif m < 0.93:
+        elif m < 0.90:
             ops.append(['reset'])
+        elif m < 0.94:
+            # a planner: functional calls on states that are not the environment's own state object
+            ops.append(['plan', r.randrange(4), r.randrange(1 << 16), r.randint(1, 4)])
         else:
             ops.append(['set_seed', W.gen_seed(r)])
             if r.random() < 0.6:
@@ -296,6 +299,39 @@ class IsoSim(Sim):
         sk = state_key(cl.env.state)
         self.ctx.state(sk)
         self._hist(cl, 'step', a.name, sha(sk), repr(float(r[0])), bool(r[1]), *self._numeric(cl, 'state', cl.env.state))
+
+    def op_plan(self, cl, start, k, n):
+        """the functional interface on states that are not the environment's live state object: a rebuilt copy of
+        the current state, or a functional reset, then a short roll-out; everything answered is part of the history"""
+        if not cl.started:
+            return
+        from gvsim.lib import mk_state, world_of
+
+        self.ctx.fault('functional_rollout_on_foreign_states')
+        if start % 2 == 0:
+            S = mk_state(world_of(cl.env.state))
+        else:
+            S = self._around(cl, 'functional_reset', lambda: sut(cl.env.functional_reset))
+            if isinstance(S, Raised):
+                self._hist(cl, 'freset', 'raised', S.type)
+                return
+            self._hist(cl, 'freset', sha(state_key(S)))
+        for j in range(n + 1):
+            S0 = S
+            o = self._around(cl, 'functional_observation', lambda: sut(cl.env.functional_observation, S0))
+            if isinstance(o, Raised):
+                self._hist(cl, 'fobs', 'raised', o.type)
+                return
+            self._hist(cl, 'fobs', sha(state_key(o)), *self._numeric(cl, 'obs', o))
+            if j == n:
+                break
+            a = action_of(cl.actions[(k >> (3 * j)) % len(cl.actions)])
+            r = self._around(cl, 'functional_step', lambda: sut(cl.env.functional_step, S0, a))
+            if isinstance(r, Raised):
+                self._hist(cl, 'fstep', a.name, 'raised', r.type)
+                return
+            S = r[0]
+            self._hist(cl, 'fstep', a.name, sha(state_key(S)), repr(float(r[1])), bool(r[2]))
 
     def op_read_obs(self, cl, n):
         if not cl.started:
